@@ -1040,6 +1040,12 @@ func runServerHistory(t *testing.T, c *caseWriter, tags string, kind string, see
 				obs := s.round(pkt, lastArp)
 				g.observe(lastCl, obs.outs)
 			}
+			// ... and under one for which the request's own UDP checksum comes out as zero, which goes over the wire as 0xffff (RFC 768)
+			if pkt, ok := aimReqSum(lastPkt); ok {
+				s.advance(g.gap())
+				obs := s.round(pkt, lastArp)
+				g.observe(lastCl, obs.outs)
+			}
 		}
 		var macs [][]byte
 		for _, cl := range g.clients {
@@ -1099,6 +1105,45 @@ func aimXid(req, reply []byte) ([]byte, bool) {
 		}
 	}
 	return nil, false
+}
+
+// aimReqSum returns req (IPv4 without options, UDP) under a transaction id whose low half makes the one's complement sum of the
+// UDP datagram 0xffff: the computed checksum is zero and is transmitted as 0xffff.
+func aimReqSum(req []byte) ([]byte, bool) {
+	if len(req) < 28+240 || req[0] != 0x45 || req[9] != 17 {
+		return nil, false
+	}
+	out := append([]byte{}, req...)
+	out[26], out[27] = 0, 0
+	sum := func() uint32 {
+		var acc uint32
+		add := func(b []byte) {
+			for i := 0; i+1 < len(b); i += 2 {
+				acc += uint32(b[i])<<8 | uint32(b[i+1])
+			}
+			if len(b)%2 == 1 {
+				acc += uint32(b[len(b)-1]) << 8
+			}
+		}
+		add(out[12:20])
+		acc += 17 + uint32(len(out)-20)
+		add(out[20:])
+		for acc>>16 != 0 {
+			acc = acc>>16 + acc&0xffff
+		}
+		return acc
+	}
+	out[34], out[35] = 0, 0
+	need := 0xffff - sum() // what the low half of the id has to add (end-around carry: the sum without it is below 0xffff or equal)
+	if need == 0 {
+		need = 0xffff
+	}
+	out[34], out[35] = byte(need>>8), byte(need)
+	if sum() != 0xffff {
+		return nil, false
+	}
+	out[26], out[27] = 0xff, 0xff
+	return out, true
 }
 
 func TestServerHistories(t *testing.T) {
